@@ -22,6 +22,10 @@ def specs(draw, tier):
     n = draw(st.integers(20, 40)) if dim == 1 else draw(st.integers(16, 28))
     spec = {"kind": kind, "dim": dim, "n": n, "periodic": draw(st.booleans()), "seed": draw(st.integers(0, 2**31)), "num_processes": draw(st.sampled_from(NPROCS))}
     spec["field"] = draw(st.sampled_from(["droplets", "droplets", "noise"]))
+    # one candidate may be impossible to fit (a not-a-number pixel next to a droplet): whatever the library does about it - raise
+    # or carry on - it must do the same serially and in parallel
+    spec["nan_pixel"] = draw(st.integers(0, 5)) == 0
+    spec["diffuse_candidates"] = draw(st.booleans())
     spec["ndrops"] = draw(st.integers(2, 6))
     spec["refine_args"] = draw(
         st.sampled_from(
@@ -74,6 +78,10 @@ def make_field(spec, grid, k=0):
         for d in em:
             f.data += rng.uniform(0.7, 1.8) * d.get_phase_field(grid).data
     f.data += 0.01 * rng.standard_normal(f.data.shape)
+    if spec.get("nan_pixel") and spec.get("kind") == "refine" and k == 0 and drops:
+        p0, r0 = drops[0]
+        idx = tuple(int(x) % n for x in np.floor(p0 + np.eye(dim)[0] * (r0 + 1.0)))
+        f.data[idx] = np.nan
     return f
 
 
@@ -144,11 +152,31 @@ class C15(Property):
         field = make_field(spec, grid)
         import copy
 
+        extra = {"interface_width": 1.0} if spec.get("diffuse_candidates") else {}
+
         def kw_fresh():  # every call gets its own (deep) copy of the user-supplied options
-            return dict(refine=True, modes=spec["modes"], refine_args=copy.deepcopy(spec["refine_args"]))
+            return dict(refine=True, modes=spec["modes"], refine_args=copy.deepcopy(spec["refine_args"]), **extra)
+
+        def outcome(fn):
+            """the records of the result, or the type of the exception that was raised"""
+            try:
+                return em_records(fn())
+            except Exception as exc:  # noqa: BLE001 - compared, not judged: the same failure is expected from every process count
+                return ("raised", type(exc).__name__)
 
         kw = kw_fresh()
-        cands = ia.locate_droplets(field, modes=spec["modes"])
+        if spec.get("nan_pixel") and spec["field"] == "droplets":
+            ctx.cls("unfittable-candidate")
+            cands = ia.locate_droplets(field, modes=spec["modes"], **extra)
+            o_ser = outcome(lambda: ia.locate_droplets(field, num_processes=1, **kw_fresh()))
+            o_par = outcome(lambda: ia.locate_droplets(field, num_processes=nproc, **kw_fresh()))
+            ctx.nontrivial = len(cands) >= 2
+            ctx.require(o_ser == o_par, f"refine:parallel-differs:unfittable:procs={nproc}", f"with a candidate that cannot be fitted the serial run gives {str(o_ser)[:120]} and the parallel run {str(o_par)[:120]}")
+            o_ser2 = outcome(lambda: ia.refine_droplets(field, [c.copy() for c in cands], num_processes=1, **(kw_fresh()["refine_args"] or {})))
+            o_par2 = outcome(lambda: ia.refine_droplets(field, [c.copy() for c in cands], num_processes=nproc, **(kw_fresh()["refine_args"] or {})))
+            ctx.require(o_ser2 == o_par2, f"refine_droplets:parallel-differs:unfittable:procs={nproc}", f"refine_droplets with an unfittable candidate: serial {str(o_ser2)[:120]} vs parallel {str(o_par2)[:120]}")
+            return
+        cands = ia.locate_droplets(field, modes=spec["modes"], **extra)
         base = ia.locate_droplets(field, num_processes=1, **kw_fresh())
         again = ia.locate_droplets(field, num_processes=1, **kw_fresh())
         ctx.require(em_records(base) == em_records(again), "refine:serial-not-repeatable", "two serial runs differ")
